@@ -159,16 +159,38 @@ CLAIMED = {
         "signatures: every key-addressed method accepts every argument pack Client accepts, performs exactly one inner call of the same "
         "method with the caller's bound arguments, returns the inner result / raises the inner exception unchanged; _create_client "
         "forwards every shared configuration option. RetryingClient's __getattr__ forwarding is re-proved as dep:C17.",
-   note="HashClient with one server is not yet mechanised (NOT_COVERED). Trusted: call binding, pool contracts, client_class is Client.",
+   note="HashClient single-key methods are covered the same way; HashClient multi-key methods and constructor options are not (NOT_COVERED). Trusted: call binding, pool contracts, client_class is Client.",
    technique="contract-based deductive verification: call-binding VCs against signatures read from the AST (z3)",
    ref="5 C16"),
  "C07": dict(
    text="PooledClient read methods with ignore_exc: for any Exception-class failure of the inner call the method does not raise and "
         "returns exactly the miss value, which is computed by executing the real Client method on an empty fetch result; the slot is "
         "returned and the failed socket closed (C09).",
-   note="Client._fetch_cmd's own ignore_exc path and HashClient's read wrappers are not yet mechanised (NOT_COVERED).",
+   note="HashClient get/gat/gats/gets are covered the same way (failure, back-off and no-server all return the miss value; dep:C13 re-proves that nothing escapes). Client._fetch_cmd's own ignore_exc path and the multi-key reads are not yet mechanised (NOT_COVERED).",
    technique="contract-based deductive verification: exceptional postconditions over callee contracts (z3)",
    ref="5 C07"),
+ "C12": dict(
+   text="Every single-key HashClient method is executed symbolically from the real source with _run_cmd and _get_client inlined "
+        "(hasher by its C11 contract, _safely_run_func by its C13 contract): on every path the routing key (the key, or the server-key "
+        "of a pair) is validated, there is exactly one placement lookup with it, and the operation is performed on the client "
+        "registered for the placed node - which is in rotation - with the stripped key. So all single-key operations share one route.",
+   note="NOT COVERED: set_many/get_many/gets_many/delete_many (group-by invariants over maps of sequences not mechanised): 'get_many equals "
+        "the per-key gets' and 'exactly once' are not claimed. Trusted: C11/C13 contracts, client table keyed by node name.",
+   technique="contract-based deductive verification: routing VCs over callee contracts (z3)",
+   ref="5 C12"),
+ "C13": dict(
+   text="Representation invariant FW of the failover state machine plus per-transition contracts, all from the real source: "
+        "_mark_failed_server (a first failure with retries configured keeps the server in rotation; eviction otherwise; counters and "
+        "timestamps), remove_server (requires failure record and rotation - established at both call sites - so no internal KeyError / "
+        "ValueError), _safely_run_func (contact at most once and only when healthy / retry window elapsed / at eviction; default and no "
+        "state change inside the back-off window; success clears the record; only the server's own error escapes, never with "
+        "ignore_exc; no other server leaves rotation), _retry_dead (nothing changes unless due; only servers dead longer than "
+        "dead_timeout are candidates; rotation only grows), and every single-key method (no-contact raise is only 'all servers down').",
+   note="The window bounds and recovery time are history-level consequences of these contracts; they are stated and exercised by the "
+        "bounded replay (event sequences on the real HashClient) but the history induction is not mechanised. _retry_dead's 'never "
+        "raises' and the multi-key paths are not covered. Trusted: dict axioms, C11 contracts, injective node names, monotone clock.",
+   technique="contract-based deductive verification: representation invariant + transition contracts (z3, arrays + quantifiers)",
+   ref="5 C13"),
 }
 REASON_PENDING = "contracts designed (DESIGN.md section 5) but not yet mechanised; not claimed"
 
